@@ -44,7 +44,7 @@ def run(tier):
             continue
         for variant in range(2 if tier == "quick" else 5):
             tree = rand_tree(r, 0, g.bpc, [min(g.count - 6, 60)])
-            b = specfat.Builder(g, r, placement=r.choice(["seq", "frag"]), fat_garbage=True, boot_garbage=True)
+            b = specfat.Builder(g, r, placement=r.choice(["seq", "frag"]), fat_garbage=True, boot_garbage=True, res1_garbage=True)
             try:
                 img = b.build(tree)
             except MemoryError:
